@@ -232,13 +232,13 @@ def run(report, tier):
     E.setup_report(report, "C05")
     backends = ["f64", "dec"]
     import concurrent.futures as cf
-    frontend.dump_repo_parallel(backends)
+    keys = E.dump_worlds(backends)
     pool = mpool.Pool(jobs=max(2, __import__("engine.common", fromlist=["x"]).ncpu() - 6))
     try:
         with cf.ThreadPoolExecutor(max_workers=1) as ex:
             fut = ex.submit(kani_fit, report, tier)
-            desc = {be: pool.describe(be) for be in backends}
-            tasks = [(be, inst, ua) for be in backends for inst in desc[be]["operators"] for ua in desc[be]["units"][inst[0]]]
+            desc = E.describe_worlds(pool, keys)
+            tasks = [(keys[label], inst, ua) for label in keys for inst in desc[label]["operators"] for ua in desc[label]["units"][inst[0]]]
             E.shuffle(tasks)
             report.bounds.update({
                 "f64_amount_box": "a, b = 0 or 2^-400 <= |.| <= 2^400 (divisor non-zero)",
@@ -246,10 +246,12 @@ def run(report, tier):
                 "units": "every operand unit pair of each operator instance"})
             cands = pool.run(report, task, tasks)
             for c in cands:
-                be = c["backend"]
-                c["prefixes"] = desc[be]["prefix"].get(c["types"][2], {})
-                c["ref_unit"] = desc[be]["ref_unit"].get(c["types"][2])
+                wl = c.get("world", c["backend"])
+                c["prefixes"] = desc[wl]["prefix"].get(c["types"][2], {})
+                c["ref_unit"] = desc[wl]["ref_unit"].get(c["types"][2])
+            pool.cross_check(report)
             E.native_confirm(report, "C05", cands, desc, oracle, probes=E.probe_amounts_2)
+            E.translator_validation(report, pool, desc, ops=("fit",), full=(tier == "thorough"))
             fut.result()
     finally:
         pool.close()
